@@ -121,6 +121,7 @@ def parse_template(path):
             word = body.split()[0]
             rest = body[len(word):].strip()
             heredoc = None
+            dline = i + 1
             if rest.endswith("<<<"):
                 rest = rest[:-3].strip()
                 j = i + 1
@@ -174,7 +175,7 @@ def parse_template(path):
                     cur = None
                     buf_line = i + 2
                 else:
-                    cur.subs.append(Directive(word, rest, heredoc, i + 1))
+                    cur.subs.append(Directive(word, rest, heredoc, dline))
             i += 1
             continue
         if cur is not None:
@@ -528,6 +529,19 @@ def process_fn_like(ex, sig, body, subs, idbase, ret_default="r"):
             if n > len(loops) or n < 1:
                 raise GenError("%s: loop %d not found (%d loops) (template line %d)" % (ex.name, n, len(loops), d.lineno))
             lp = loops[n - 1]
+            if "hh" in opts:
+                # pinned loop header: robust against loops added/removed before this one by a harmless refactor
+                def _hh(l):
+                    return hashlib.sha256(re.sub(r"\s+", " ", body[l["kw_start"]:l["head_end"]]).strip().encode()).hexdigest()[:8]
+                if _hh(lp) != opts["hh"]:
+                    cands = [l for l in loops if _hh(l) == opts["hh"]]
+                    if len(cands) == 1:
+                        lp = cands[0]
+                        n = loops.index(lp) + 1
+                    else:
+                        raise GenError("%s: loop %d header changed (pinned %s, %d other candidates) (template line %d)" % (ex.name, n, opts["hh"], len(cands), d.lineno))
+            ex.loop_headers = getattr(ex, "loop_headers", {})
+            ex.loop_headers[d.lineno] = hashlib.sha256(re.sub(r"\s+", " ", body[lp["kw_start"]:lp["head_end"]]).strip().encode()).hexdigest()[:8]
             if "kw" in opts and opts["kw"] != lp["kw"]:
                 raise GenError("%s: loop %d is `%s`, spec expects `%s`" % (ex.name, n, lp["kw"], opts["kw"]))
             if "iter" in opts:
